@@ -10,8 +10,9 @@
 //	   x 4 sibling layouts,
 //	C  AddASN1 with every identifier octet 0..255 x content sizes {0,127,128}.
 //
-// Every program runs on the real Builder (zero value, and NewBuilder over a short
-// non-empty buffer that must reallocate) and its outcome is compared with the
+// Every program runs on the real Builder (zero value; and, except for the largest
+// class of family A and three of the four sibling layouts of the >4096-byte programs
+// of family B, NewBuilder over a short non-empty buffer that must reallocate) and its outcome is compared with the
 // reference model verif/ref/cbref: error / panic / bytes, byte-for-byte output,
 // and the mirrored cryptobyte.String reads must recover every value and leave
 // nothing. Every program that yields bytes is then run on NewFixedBuilder for
@@ -360,7 +361,11 @@ func (k *checker) compareGrow(mode string, prog []*cbref.Op, m *cbref.Result, r 
 			return bad("output differs from the reference encoding")
 		}
 		s := cryptobyte.String(r.out)
-		if msg := readItems(&s, m.Items); msg != "" {
+		var msg string
+		if p, v := protect(func() { msg = readItems(&s, m.Items) }); p {
+			return bad("mirrored String reads panic: " + fmt.Sprint(v))
+		}
+		if msg != "" {
 			return bad("mirrored String reads: " + msg)
 		}
 		if !s.Empty() {
@@ -489,7 +494,8 @@ func sig(prog []*cbref.Op) (kinds string, depth int) {
 }
 
 // check runs one program through every builder variant.
-func (k *checker) check(family string, prog []*cbref.Op, trackState, fixed bool, st *stats) {
+func (k *checker) check(family string, prog []*cbref.Op, trackState, full bool, st *stats) {
+	fixed := true
 	c := k.c
 	cbref.Number(prog)
 	// 1. zero-value Builder
@@ -516,6 +522,12 @@ func (k *checker) check(family string, prog []*cbref.Op, trackState, fixed bool,
 			c.Nontrivial(fmt.Sprintf("%s|d%d|%s", m.Outcome, d, ks))
 		}
 	}
+	if fixed && m.Outcome == cbref.OutBytes {
+		k.checkFixed(prog, nil, &m, st)
+	}
+	if !full {
+		return
+	}
 	// 2. NewBuilder over a non-empty buffer with 3 spare bytes
 	m2 := cbref.Run(prog, k.vals, growPrefix)
 	ib := make([]byte, len(growPrefix), len(growPrefix)+3)
@@ -524,10 +536,6 @@ func (k *checker) check(family string, prog []*cbref.Op, trackState, fixed bool,
 	st.traces++
 	st.transitions += r2.ops
 	k.compareGrow("NewBuilder(prefix)", prog, &m2, &r2)
-	// 3. fixed-size builders
-	if fixed && m.Outcome == cbref.OutBytes {
-		k.checkFixed(prog, nil, &m, st)
-	}
 	if fixed && m2.Outcome == cbref.OutBytes {
 		k.checkFixed(prog, growPrefix, &m2, st)
 	}
@@ -625,7 +633,7 @@ func (k *checker) familyA(label string, tLo, tHi int, sizes []int) {
 				hi = total
 			}
 			for i := lo; i < hi; i++ {
-				k.check("A", sp.forest(t, i), track, true, st)
+				k.check("A", sp.forest(t, i), track, t <= 3, st)
 			}
 		})
 		if c.Expired() {
@@ -718,7 +726,7 @@ func (k *checker) familyB(maxDepth int, bounds []int, tag string) {
 					}
 					prog = p
 				}
-				k.check(tag, prog, j.size < 70000, true, st)
+				k.check(tag, prog, j.size < 70000, j.size <= 4096 || sib == 3, st)
 			}
 		}
 		if j.size > 1<<20 {
